@@ -173,4 +173,96 @@ def parse_int_i32 := parse_int 2147483647
 def parse_int_u16 := parse_int 65535
 def parse_int_u8 := parse_int 255
 
+/-! ### src/parse/tz_file.rs -/
+
+/-- `Version` -/
+inductive Version where
+  | v1 | v2 | v3
+  deriving DecidableEq, Repr, Inhabited
+
+/-- `Header` (the model stores the version as 1, 2, 3) -/
+structure Header where
+  version : Version
+  utLocalCount : Int
+  stdWallCount : Int
+  leapCount : Int
+  transitionCount : Int
+  typeCount : Int
+  charCount : Int
+  deriving DecidableEq, Repr, Inhabited
+
+/-- `DataBlocks<'a, TIME_SIZE>` (the const parameter is an explicit argument of the functions) -/
+structure DataBlocks where
+  transitionTimes : List Nat
+  transitionTypes : List Nat
+  localTimeTypes : List Nat
+  timeZoneDesignations : List Nat
+  leapSeconds : List Nat
+  stdWalls : List Nat
+  utLocals : List Nat
+  deriving DecidableEq, Repr, Inhabited
+
+/-- `uN::from_be_bytes` -/
+def be_unsigned (b : List Nat) : Int := (b.foldl (fun acc x => acc * 256 + x) 0 : Nat)
+
+/-- `iN::from_be_bytes` on `b.length` bytes (two's complement) -/
+def be_signed (b : List Nat) : Int :=
+  let v : Int := be_unsigned b
+  let bits := 8 * b.length
+  if v ≥ 2 ^ (bits - 1) then v - 2 ^ bits else v
+
+/-- `slice.chunks_exact(n)` -/
+def chunksExactNat (n : Nat) (b : List Nat) : List (List Nat) :=
+  if _h : n = 0 ∨ b.length < n then [] else b.take n :: chunksExactNat n (b.drop n)
+termination_by b.length
+decreasing_by simp only [List.length_drop]; omega
+
+def chunks_exact (n : Int) (b : List Nat) : List (List Nat) := chunksExactNat n.toNat b
+
+/-- `slice.first_chunk::<N>()` -/
+def first_chunk (n : Int) (b : List Nat) : Option (List Nat) :=
+  if n.toNat ≤ b.length then some (b.take n.toNat) else none
+
+/-- `slice.split_first_chunk::<N>()` -/
+def split_first_chunk (n : Int) (b : List Nat) : Option (List Nat × List Nat) :=
+  if n.toNat ≤ b.length then some (b.take n.toNat, b.drop n.toNat) else none
+
+/-- `Option::unwrap` made total (that it cannot fail at its sites is a C07 obligation) -/
+def unwrap {α : Type} [Inhabited α] (o : Option α) : α := o.getD default
+
+/-- `iter::repeat(x)` -/
+structure Repeat where
+  x : Nat
+
+/-- `slice.iter().copied().chain(iter::repeat(x))` -/
+structure Padded where
+  l : List Nat
+  pad : Nat
+
+/-- the zip of two padded (infinite) iterators -/
+structure PaddedZip where
+  a : Padded
+  b : Padded
+
+def paddedTake : Nat → List Nat → Nat → List Nat
+  | 0, _, _ => []
+  | n + 1, [], p => p :: paddedTake n [] p
+  | n + 1, x :: xs, p => x :: paddedTake n xs p
+
+/-- `.take(n)` of it -/
+def PaddedZip.take (n : Int) (z : PaddedZip) : List (Nat × Nat) :=
+  List.zip (paddedTake n.toNat z.a.l z.a.pad) (paddedTake n.toNat z.b.l z.b.pad)
+
+/-- `Result<Option<T>, E>::transpose` -/
+def res_transpose {ε α : Type} : Except ε (Option α) → Option (Except ε α)
+  | .ok (some a) => some (.ok a)
+  | .ok none => none
+  | .error e => some (.error e)
+
+/-- `Option<Result<T, E>>::transpose` -/
+def opt_transpose {ε α : Type} : Option (Except ε α) → Except ε (Option α)
+  | some (.ok a) => .ok (some a)
+  | some (.error e) => .error e
+  | none => .ok none
+
 end TzVerif.Src
